@@ -48,6 +48,19 @@ func c15AttachSites() []c15AttachSite {
 		{Name: "method-doc-blank-receiver", Obj: "Mt", Role: "method", Recv: "A", Src: h + "type A struct{ F int }\n\n{C}\nfunc (_ *A) Mt() {}\n"},
 		{Name: "method-doc-parenthesised-receiver", Obj: "Mt", Role: "method", Recv: "A", Src: h + "type A struct{ F int }\n\n{C}\nfunc (a *(A)) Mt() {}\n"},
 		{Name: "method-doc-generic-receiver", Obj: "Mt", Role: "method", Recv: "A", Src: h + "type A[V any] struct{ F V }\n\n{C}\nfunc (a *A[V]) Mt() {}\n"},
+		// the same NAME already carries the same annotations on another object: nothing is "seen before"
+		{Name: "method-doc-after-annotated-same-named-method", Obj: "Mt", Role: "method", Recv: "A",
+			Fixed: []string{"testonly/method(B)@Mt", "packageonly/method(B){+self}[a/b]@Mt"},
+			Src:   h + "type A struct{ F int }\n\ntype B struct{ F int }\n\n// @testonly\n// @packageonly a/b\nfunc (b B) Mt() {}\n\n{C}\nfunc (a A) Mt() {}\n"},
+		{Name: "method-doc-after-annotated-same-named-func", Obj: "Mt", Role: "method", Recv: "A",
+			Fixed: []string{"testonly/func()@Mt", "packageonly/func(){+self}[a/b]@Mt"},
+			Src:   h + "type A struct{ F int }\n\n// @testonly\n// @packageonly a/b\nfunc Mt() {}\n\n{C}\nfunc (a A) Mt() {}\n"},
+		{Name: "method-doc-after-annotated-same-named-type", Obj: "Mt", Role: "method", Recv: "A",
+			Fixed: []string{"testonly/type()@Mt", "packageonly/type(){+self}[a/b]@Mt"},
+			Src:   h + "type A struct{ F int }\n\n// @testonly\n// @packageonly a/b\ntype Mt struct{ F int }\n\n{C}\nfunc (a A) Mt() {}\n"},
+		{Name: "func-doc-before-annotated-same-named-method", Obj: "Mt", Role: "func",
+			Fixed: []string{"testonly/method(A)@Mt", "packageonly/method(A){+self}[a/b]@Mt"},
+			Src:   h + "type A struct{ F int }\n\n{C}\nfunc Mt() {}\n\n// @testonly\n// @packageonly a/b\nfunc (a A) Mt() {}\n"},
 		{Name: "method-doc-beside-same-named-func", Obj: "Mt", Role: "method", Recv: "A", Src: h + "type A struct{ F int }\n\nfunc Mt() {}\n\n{C}\nfunc (A) Mt() {}\n"},
 		{Name: "field-doc-of-immutable-struct", Obj: "A", Role: "field", Fixed: []string{"immutable@A"},
 			Src: h + "// @immutable\ntype A struct {\n\t{C}\n\tF int\n}\n"},
